@@ -17,13 +17,16 @@ Record fin := { f_workload : option item; f_cert_root : list N; f_bundle : list 
 
 Inductive case :=
 | Trace (id : N) (c : cfg) (t0 : Z) (steps : list (hstep * list ev)) (final : fin)
+(* the same observed trace, judged only on "a CA-root change seen by a ROOTCA-triggered generation is
+   announced" (the one condition of the known finding), so that the finding masks nothing else *)
+| TraceAnn (id : N) (steps : list (hstep * list ev))
 (* rotateTime called directly at fake time [now_]; observed delay *)
 | Rot (id : N) (c : cfg) (created expire now_ obs : Z)
 (* K8 witness: sub-nanosecond grace period *)
 | RotWitness (id : N) (c : cfg) (created expire now_ obs : Z).
 
 Definition case_id c :=
-  match c with Trace id _ _ _ _ => id | Rot id _ _ _ _ _ => id | RotWitness id _ _ _ _ _ => id end.
+  match c with Trace id _ _ _ _ => id | TraceAnn id _ => id | Rot id _ _ _ _ _ => id | RotWitness id _ _ _ _ _ => id end.
 
 (* ---------------------------------------------------------------- equality / canonical order *)
 
@@ -169,6 +172,7 @@ Definition model_ok (c : case) : bool :=
   | Trace _ cf t0 steps f =>
     let '(s, ok) := trace_run cf (jitter_zero cf) [] (set_now init t0) steps in
     ok && fin_ok s f && fresh_created [] (flat_map snd steps)
+  | TraceAnn _ _ => true
   | Rot _ cf created expire now_ obs =>
     (delay_lo cf created expire now_ <=? obs) && (obs <=? delay_hi cf created expire now_)
   | RotWitness _ cf created expire now_ obs =>
@@ -252,7 +256,42 @@ Definition o_event (c : cfg) (timer : bool) (errholder : option N) (o : ost) (e 
   | ENotify RRoot _ => o
   end.
 
-Definition o_step (c : cfg) (o : ost) (hs : hstep * list ev) : ost :=
+Definition thread_res (steps : list (hstep * list ev)) : list (N * res) :=
+  flat_map (fun hs => match fst hs with HStart t r => [(t, r)] | _ => [] end) steps.
+Definition res_is_root (rs : list (N * res)) (t : option N) : bool :=
+  match t with
+  | Some t => existsb (fun p => (fst p =? t)%N && res_eqb (snd p) RRoot) rs
+  | None => false
+  end.
+Definition last_csr (obs : list ev) (d : option N) : option N :=
+  fold_left (fun acc e => match e with ECsr t _ => Some t | _ => acc end) obs d.
+
+(* Announcement of CA-root changes by successful generations.  [tainted] = a ROOTCA-triggered generation
+   happened since the last "default"-triggered one (the code's certRoot was not maintained by it).
+   [finding = true] judges exactly the generations affected by the known finding
+   root-change-seen-by-rootca-request-not-announced (ROOTCA-triggered, or "default"-triggered while
+   tainted); [finding = false] judges all the others. *)
+Fixpoint ann_scan (finding : bool) (rs : list (N * res)) (prev : option (list N)) (tainted : bool)
+  (holder : option N) (steps : list (hstep * list ev)) : bool :=
+  match steps with
+  | [] => true
+  | (h, obs) :: rest =>
+    match h with
+    | HReply (CaOk _ bnd cr) _ =>
+      let roots := roots_of bnd cr in
+      let isroot := res_is_root rs holder in
+      let mine := Bool.eqb finding (isroot || tainted) in
+      let ok := match prev with
+                | Some old => negb mine || list_N_eqb old roots || has_notify RRoot obs
+                | None => true
+                end in
+      ok && ann_scan finding rs (Some roots) isroot (last_csr obs None) rest
+    | HReply CaErr _ => ann_scan finding rs prev tainted (last_csr obs None) rest
+    | _ => ann_scan finding rs prev tainted (last_csr obs holder) rest
+    end
+  end.
+
+Definition o_step (c : cfg) (rs : list (N * res)) (o : ost) (hs : hstep * list ev) : ost :=
   let '(h, obs) := hs in
   match h with
   | HStart t r =>
@@ -273,7 +312,7 @@ Definition o_step (c : cfg) (o : ost) (hs : hstep * list ev) : ost :=
       let roots := roots_of bnd cr in
       let announced :=
         match o_roots o with
-        | Some old => list_N_eqb old roots || has_notify RRoot obs   (* a changed root is announced *)
+        | Some old => true   (* announcement of root changes: see [ann_scan] *)
         | None => true
         end in
       let o1 := {| o_cur := o_cur o0; o_roots := Some roots; o_bundle := o_bundle o0; o_incsr := None;
@@ -311,11 +350,13 @@ Definition strict_pre (c : cfg) (created expire : Z) : bool :=
 
 Definition prop_ok (c : case) : bool :=
   match c with
-  | Trace _ cf t0 steps f => o_ok (fold_left (o_step cf) steps (o_init t0))
+  | Trace _ cf t0 steps f => o_ok (fold_left (o_step cf (thread_res steps)) steps (o_init t0))
+    && ann_scan false (thread_res steps) None false None steps
   | Rot _ cf created expire now_ obs =>
     (0 <=? obs)
     && (negb ((created <=? now_) || (created <=? expire)) || (obs <=? Z.max 0 (expire - now_)))
     && (negb (strict_pre cf created expire && (now_ <? expire)) || (obs <? expire - now_))
+  | TraceAnn _ steps => ann_scan true (thread_res steps) None false None steps
   | RotWitness _ _ _ _ _ _ => true
   end.
 
